@@ -69,30 +69,7 @@ def run(ctx, rep):
         else:
             rep.ok("H1", "read", {"fn": p, "field": field, "access": how})
     # ---- H3 add_content
-    fa = facts.fn(P + "add_content")
-    paths = Machine(facts, opaque_fns=["diagnostic::Diagnostic::from_parse_error"]).run(P + "add_content", [sym_ref("self", mut=True), Opaque("id"), sym_ref("content")])
-    rep.floor("H3", "paths of add_content", len(paths), 2)
-    for i, p in enumerate(paths):
-        calls = [e for e in p.effects if e[0] == "call"]
-        muts = [c for c in calls if any(base_label(a) == "self.lalrpop_results" or base_label(a) == "self" for a in c[2])]
-        parse = [c for c in calls if c[1] == PARSE]
-        ok = p.exit == "return" and len(muts) == 1 and muts[0][1].endswith("HashMap::<K, V, S, A>::insert") and muts[0] == calls[-1]
-        det = None
-        if ok:
-            tgt, key, val = muts[0][2]
-            det = fmt_label(val)[:300]
-            ok = tgt == "self.lalrpop_results" and key == "id" and isinstance(val, tuple) and val[0] == "adt" and val[1] == "parser::ParseFileResult"
-            if ok:
-                fl = dict(val[3])
-                idf, astf, dg = fl.get(0), fl.get(1), fl.get(2)
-                parse_ok = len(parse) == 1 and parse[0][2][1:] == (("call", "line_col::LineColLookup::<'source>::new", ("content",)), ("vec", ()), "content")
-                ast_ok = astf == ("adt", "std::option::Option", "None", ()) or (isinstance(astf, tuple) and astf[0] == "field" and astf[1] == ("call", PARSE, parse[0][2]) and astf[2] == "Ok.0")
-                dg_ok = "havoc" in fmt_label(dg) and PARSE in fmt_label(dg) and "self" not in fmt_label(dg)
-                ok = idf == "id" and parse_ok and ast_ok and dg_ok
-        others = [c for c in calls if c not in muts and c not in parse and c[1] != "diagnostic::Diagnostic::from_parse_error"]
-        rep.check(ok and not others, "H3", "C12|H3|path%d" % i, cfg.where(fa),
-                  "add_content path %d: expected parse(new lookup of content, fresh diagnostics, content) and finally insert(self.lalrpop_results, id, ParseFileResult{id, tree-or-None, those diagnostics}); extracted insert value %r, other calls %r" % (
-                      i, det, [c[1] for c in others]), sample={"path": i, "stored": det})
+    add_content_rule(ctx, rep, "C12", "H3")
     # ---- H5
     fr = facts.fn(P + "remove_content")
     paths = Machine(facts).run(P + "remove_content", [sym_ref("self", mut=True), Opaque("id")])
@@ -157,3 +134,48 @@ def run(ctx, rep):
     rep.assumptions += ["TB-1 rustc MIR", "TB-3 HashMap::insert overwrites, remove removes, clone copies; File::open / read_to_string report unreadable and non-UTF-8 files as Err",
                         "TB-2 the generated parser is a pure function of its arguments (no statics in the crate; lalrpop runtime)", "equality with a *fresh* parser additionally needs seed-independence: C11"]
     rep.not_decided.append("modulo C11's known finding (key collisions between files)")
+
+
+def add_content_rule(ctx, rep, prop, rule):
+    """H3 (shared with C20 F4): what add_content stores is exactly the parse of `content`: the parser's own diagnostics plus the converted fatal error, nothing rewritten afterwards"""
+    facts = ctx.mir
+    fa = facts.fn(P + "add_content")
+    paths = Machine(facts, opaque_fns=["diagnostic::Diagnostic::from_parse_error"]).run(P + "add_content", [sym_ref("self", mut=True), Opaque("id"), sym_ref("content")])
+    rep.floor(rule, "paths of add_content", len(paths), 2)
+    for i, p in enumerate(paths):
+        calls = [e for e in p.effects if e[0] == "call"]
+        muts = [c for c in calls if any(base_label(a) == "self.lalrpop_results" or base_label(a) == "self" for a in c[2])]
+        parse = [c for c in calls if c[1] == PARSE]
+        ok = p.exit == "return" and len(muts) == 1 and muts[0][1].endswith("HashMap::<K, V, S, A>::insert") and muts[0] == calls[-1]
+        det = None
+        if ok:
+            tgt, key, val = muts[0][2]
+            det = fmt_label(val)[:300]
+            ok = tgt == "self.lalrpop_results" and key == "id" and isinstance(val, tuple) and val[0] == "adt" and val[1] == "parser::ParseFileResult"
+            if ok:
+                fl = dict(val[3])
+                idf, astf, dg = fl.get(0), fl.get(1), fl.get(2)
+                parse_ok = len(parse) == 1 and parse[0][2][1:] == (("call", "line_col::LineColLookup::<'source>::new", ("content",)), ("vec", ()), "content")
+                ast_ok = astf == ("adt", "std::option::Option", "None", ()) or (isinstance(astf, tuple) and astf[0] == "field" and astf[1] == ("call", PARSE, parse[0][2]) and astf[2] == "Ok.0")
+                dg_ok = "havoc" in fmt_label(dg) and PARSE in fmt_label(dg) and "self" not in fmt_label(dg)
+                ok = idf == "id" and parse_ok and ast_ok and dg_ok
+        others = [c for c in calls if c not in muts and c not in parse and c[1] != "diagnostic::Diagnostic::from_parse_error"]
+        rep.check(ok and not others, rule, "%s|%s|path%d" % (prop, rule, i), cfg.where(fa),
+                  "add_content path %d: expected parse(new lookup of content, fresh diagnostics, content) and finally insert(self.lalrpop_results, id, ParseFileResult{id, tree-or-None, those diagnostics}); extracted insert value %r, other calls %r" % (
+                      i, det, [c[1] for c in others]), sample={"path": i, "stored": det})
+
+
+def content_untouched(ctx, rep, rule, prop):
+    """shared (C04, C16, C18): the text handed to the line/column lookup and the text handed to the generated parser are both
+    the caller's `content` itself - offsets reported by the parser are offsets into what the caller stored"""
+    facts = ctx.mir
+    fa = facts.fn(P + "add_content")
+    paths = Machine(facts, opaque_fns=["diagnostic::Diagnostic::from_parse_error"]).run(P + "add_content", [sym_ref("self", mut=True), Opaque("id"), sym_ref("content")])
+    rep.floor(rule, "paths of add_content", len(paths), 2)
+    for i, p in enumerate(paths):
+        parse = [e for e in p.effects if e[0] == "call" and e[1] == PARSE]
+        ok = len(parse) == 1 and parse[0][2][1:] == (("call", "line_col::LineColLookup::<'source>::new", ("content",)), ("vec", ()), "content")
+        rep.check(ok, rule, "%s|%s|add_content|path%d" % (prop, rule, i), cfg.where(fa),
+                  "add_content path %d: the parser must be run as parse(&LineColLookup::new(content), &mut fresh diagnostics, content) on the caller's text itself "
+                  "(a stripped / normalised copy shifts every offset relative to the text the caller holds); extracted %r" % (i, [fmt_label(c[2]) for c in parse]),
+                  sample={"path": i, "parse_args": [fmt_label(c[2])[:200] for c in parse]})
